@@ -18,6 +18,7 @@ func init() {
 	theU.DeclFunc("slen", SInt, SStr)
 	theU.DeclFunc("dw", SInt, SStr)
 	theU.DeclFunc("sconcat", SStr, SStr, SStr)
+	theU.extraAxioms = strAxioms
 	theU.DeclFunc("typeof", SInt, SInt)
 	theU.DeclFunc("i2f", SReal, SInt)
 	theU.DeclFunc("fadd", SReal, SReal, SReal)
@@ -220,7 +221,7 @@ func rangeFacts(v *Term, t types.Type) []*Term {
 				return []*Term{Le(BigLit(lo), v), Le(v, BigLit(hi))}
 			}
 		}
-	case *types.Pointer, *types.Chan, *types.Map, *types.Signature, *types.Interface:
+	case *types.Pointer, *types.Chan, *types.Map, *types.Interface:
 		return []*Term{Ge(v, Zero)}
 	case *types.Slice:
 		if isByteSlice(t) {
